@@ -45,7 +45,7 @@ type runRes struct {
 var execFuncs = map[string]func(i uint64) runRes{}
 
 const childASLimit = 6 << 30
-const childMaxStack = 128 << 20
+const childMaxStack = 64 << 20
 
 var devnull *os.File
 
@@ -211,7 +211,7 @@ var currentTier = "quick"
 func startChild() *child {
 	exe, _ := os.Executable()
 	cmd := exec.Command(exe)
-	cmd.Env = append(os.Environ(), "C04_CHILD=1", "C04_TIER="+currentTier, "GOTRACEBACK=single")
+	cmd.Env = append(os.Environ(), "C04_CHILD=1", "C04_TIER="+currentTier, "GOTRACEBACK=single", "GOMAXPROCS=2", "GOGC=200")
 	stdin, _ := cmd.StdinPipe()
 	stdout, _ := cmd.StdoutPipe()
 	ht := &headTail{}
@@ -366,6 +366,7 @@ func procCPU(pid int) float64 {
 func cleanChildDir(pid int) {
 	if root := os.Getenv("C04_ROOT"); root != "" {
 		os.RemoveAll(filepath.Join(root, fmt.Sprintf("x%d", pid)))
+		os.Remove(root) // only succeeds when no other child directory is left
 	}
 }
 
